@@ -246,7 +246,8 @@ UNIT = dict(
     # everything real in one piece (no stub for reclaim_nodes): cross-check of the composition, small shape
     dict(id='hp_scan_whole', entry='h_scan', defs=dict(XV_E=2, XV_K=2, XV_L=2, XV_LA=1), unwindset=unw(2, 2, 2, 1, 'hp'), cls='shape-complete', timeout=3000),
     dict(id='hp_dtor_whole', entry='h_dtor', defs=dict(XV_E=2, XV_K=2, XV_L=2, XV_LA=1), unwindset=unw(2, 2, 2, 1, 'hp'), cls='shape-complete', timeout=3000),
-    dict(id='he_scan_whole', entry='h_scan', tiers=['thorough'], defs=dict(XV_HE=1, XV_E=2, XV_K=2, XV_L=2, XV_LA=1), unwindset=unw(2, 2, 2, 1, 'he'), cls='shape-complete', timeout=3000),
+    dict(id='he_scan_whole', entry='h_scan', tiers=['thorough'], defs=dict(XV_HE=1, XV_E=2, XV_K=2, XV_L=1, XV_LA=1), unwindset=unw(2, 2, 1, 1, 'he'), cls='shape-complete', timeout=3000,
+         note='smaller than the HP cross-check: the concrete std::unique model makes the SAT problem much harder'),
   ],
   obligations={
     'hpscan.fence_first': dict(deciding=True, text='scan: a seq_cst fence precedes the first slot read, and every delete_self comes after the slot reads (C01 reclaim side)'),
